@@ -58,6 +58,7 @@ void free_(Provider p, void* ptr);
 // when hostile_like != nullptr the neighbours are filled by repeating that pattern.
 char* caller_buf(const void* data, size_t n, Place pl = PL_AUTO, const char* hostile_like = nullptr,
                  size_t hostile_len = 0);
+char* caller_raw(size_t n);       // untouched zero pages of n bytes ending at a guard page (guarded mode; huge operands)
 void caller_release(char* p);     // poison + protect (or free in sanitizer mode)
 void caller_free(char* p);        // plain return
 
